@@ -237,6 +237,8 @@ impl CommandOutput {
                 Some(writer.send_commands())
             }
             (Some(mut writer), _) => {
+                // The send buffer still holds the contents of the previous write.
+                writer.buffer.clear();
                 for i in dirty.drain(..) {
                     if let Some(LaneBuffer { buffer, offset }) = lane_buffers.get_mut(&i) {
                         writer.append_buffer(buffer);
